@@ -1120,7 +1120,12 @@ func (is *indexSearch) seriesByBinaryExprSetLiteral(name, key []byte, vals map[i
 	var result *uint64set.Set
 	tf := new(tagFilter)
 	for val := range vals {
-		if err := tf.Init(name, key, []byte(val.(string)), false, false); err != nil {
+		sval, ok := val.(string)
+		if !ok {
+			// a number in the list (the parser keeps it as float64): no tag value is a number
+			continue
+		}
+		if err := tf.Init(name, key, []byte(sval), false, false); err != nil {
 			return nil, err
 		}
 		set, _, err := is.searchTSIDsByTagFilterAndDateRange(tf)
@@ -1142,6 +1147,10 @@ func (is *indexSearch) seriesByBinaryExprSetLiteral(name, key []byte, vals map[i
 			tsids.Subtract(result)
 		}
 		result = tsids
+	}
+	if result == nil {
+		// no value to look up: nothing is selected (the callers dereference the set)
+		result = &uint64set.Set{}
 	}
 	return index.NewSeriesIDSetIterator(index.NewSeriesIDSetWithSet(result)), nil
 }
